@@ -411,6 +411,10 @@ K_TYPE_CAP = [
     H(ROOT + 'c14::c14_k_filtered_params_type_capacity', ['<FilteredPublicKeyCredentialParameters as Deserialize>::deserialize', 'String<32> capacity of the entry type'],
       kind='bounded', bound='lists of 0..=1 entries, type strings of 10 or 33 bytes', timeout=3600, tier='thorough'),
 ]
+K_MALFORMED = [
+    H(ROOT + 'c14::c14_k_filtered_params_malformed_entry_anywhere', ['<FilteredPublicKeyCredentialParameters as Deserialize>::deserialize (visit_seq loop)', 'derived PublicKeyCredentialParameters decoder (required member `type`)'],
+      kind='bounded', bound='lists of 0..=3 symbolic entries, each well-formed or lacking its required member `type`'),
+]
 K_FILTERED_LEN = [
     H(ROOT + 'c14::c03_k_filtered_params_serialize_length', ['<FilteredPublicKeyCredentialParameters as Serialize>::serialize'], kind='proof',
       note='all lists the type can hold (0..=2 entries over the two known algorithms, duplicates included), counting serializer'),
@@ -419,17 +423,17 @@ K_GNA = [
     H(ROOT + 'c02::c02_k_get_next_assertion_like_get_assertion', ['ctap2::Response::serialize::<48> (GetAssertion | GetNextAssertion arm)'],
       kind='bounded', bound='one concrete shape of the fixed members, symbolic optional scalars, N = 48', timeout=3600, tier='thorough'),
 ]
-PROPS['C01']['kani'] = GC_DECODE + GC_OPTIONS + K_LOSSY + K_TYPE_CAP + [K_NAME]
+PROPS['C01']['kani'] = GC_DECODE + GC_OPTIONS + K_LOSSY + K_TYPE_CAP + K_MALFORMED + [K_NAME]
 PROPS['C02']['kani'] = K_C17[:5] + K_GNA + K_FILTERED_LEN + K_FILTERED_SER + GC_ROUNDTRIP
 PROPS['C03']['kani'] = K_C03_HEADS + K_FILTERED_LEN + K_FILTERED_SER
-PROPS['C05']['kani'] = GC_DECODE[1:] + K_LOSSY[3:4]
+PROPS['C05']['kani'] = GC_DECODE[1:] + K_LOSSY[3:4] + K_MALFORMED
 PROPS['C06']['kani'] = GC_OPTIONS
 PROPS['C12']['kani'] = GC_CAP + K_TYPE_CAP + K_LOSSY[0:1] + [K_ICON_MB, K_ICON_MBC]
 PROPS['C15']['kani'] = GC_ROUNDTRIP + K_C18_STRINGS[:3]
 PROPS['C18']['kani'] = K_C18_STRINGS
 
 PROPS['C13']['kani'] = K_C13 + K_LOSSY[3:4]
-PROPS['C14']['kani'] = K_C14 + K_TYPE_CAP
+PROPS['C14']['kani'] = K_C14 + K_TYPE_CAP + K_MALFORMED
 PROPS['C04']['kani'] = K_C13 + K_C14[:3] + K_LOSSY[3:4]
 PROPS['C09']['kani'] = [
     H(ROOT + 'c09::c09_k_authenticate_small', ['ctap1::Response::serialize::<80> (Authenticate)'], kind='gc',
